@@ -1,29 +1,29 @@
 #!/bin/bash
 # tools_seed_verify.sh <ID> [src_dir]: confirm a seeded change (patch applies, demo passes without / fails with it,
 # repository tests pass with it), run our check against it, write seeded/<ID>/meta.json. Scratch worktree is removed.
-ID=$1; SRC=${2:-/tmp/seed_$ID/_out}; DEST=/verif/seeded/$ID; WT=/tmp/sv_$ID
+ID=$1; SRC=${2:-/tmp/seed_$ID/_out}; NAME=${3:-$ID}; DEST=/verif/seeded/$NAME; WT=/tmp/sv_$NAME
 mkdir -p $DEST; cp $SRC/patch.diff $SRC/demo.py $DEST/ 2>/dev/null; cp $SRC/notes.md $DEST/notes.md 2>/dev/null
 git -C /repo worktree remove --force $WT 2>/dev/null
 git -C /repo worktree add -q $WT ${BASE:-HEAD} || exit 2
 cd $WT
-PYTHONPATH=$WT timeout 900 /venv/bin/python $DEST/demo.py > /tmp/sv_${ID}_demo_clean.log 2>&1; d0=$?
+PYTHONPATH=$WT timeout 900 /venv/bin/python $DEST/demo.py > /tmp/sv_${NAME}_demo_clean.log 2>&1; d0=$?
 git apply $DEST/patch.diff; ap=$?
-PYTHONPATH=$WT timeout 900 /venv/bin/python $DEST/demo.py > /tmp/sv_${ID}_demo_seeded.log 2>&1; d1=$?
+PYTHONPATH=$WT timeout 900 /venv/bin/python $DEST/demo.py > /tmp/sv_${NAME}_demo_seeded.log 2>&1; d1=$?
 if [ "$SKIP_TESTS" = "1" ]; then tests=$(python3 -c "import json;print(json.load(open('$DEST/meta.json'))['confirmed']['repository_tests_with_change'])" 2>/dev/null || echo skipped); else
-PYTHONPATH=$WT /venv/bin/python -m pytest -q -p no:cacheprovider --benchmark-disable -n 8 --timeout=900 tests > /tmp/sv_${ID}_tests.log 2>&1
-tests=$(tail -1 /tmp/sv_${ID}_tests.log | cut -c1-80); fi
+PYTHONPATH=$WT /venv/bin/python -m pytest -q -p no:cacheprovider --benchmark-disable -n 8 --timeout=900 tests > /tmp/sv_${NAME}_tests.log 2>&1
+tests=$(tail -1 /tmp/sv_${NAME}_tests.log | cut -c1-80); fi
 cd /verif
-VK_REPO=$WT VK_TIMEOUT=240 ./check $ID quick > /tmp/sv_${ID}_check_quick.log 2>&1; cq=$?
+VK_REPO=$WT VK_TIMEOUT=240 ./check $ID quick > /tmp/sv_${NAME}_check_quick.log 2>&1; cq=$?
 ct="not-run"
-if [ $cq -ne 1 ] && [ "$THOROUGH" != "0" ]; then VK_REPO=$WT VK_TIMEOUT=1500 ./check $ID thorough > /tmp/sv_${ID}_check_thorough.log 2>&1; ct=$?; fi
-[ "$ct" = "not-run" ] && rm -f /tmp/sv_${ID}_check_thorough.log
-buckets=$(grep -h "bucket:" /tmp/sv_${ID}_check_*.log | sort -u | head -4 | tr '\n' ';')
+if [ $cq -ne 1 ] && [ "$THOROUGH" != "0" ]; then VK_REPO=$WT VK_TIMEOUT=1500 ./check $ID thorough > /tmp/sv_${NAME}_check_thorough.log 2>&1; ct=$?; fi
+[ "$ct" = "not-run" ] && rm -f /tmp/sv_${NAME}_check_thorough.log
+buckets=$(grep -h "bucket:" /tmp/sv_${NAME}_check_*.log | sort -u | head -4 | tr '\n' ';')
 git -C /repo worktree remove --force $WT
-python3 - "$ID" "$ap" "$d0" "$d1" "$tests" "$cq" "$ct" "$buckets" <<'PY'
+python3 - "$ID" "$ap" "$d0" "$d1" "$tests" "$cq" "$ct" "$buckets" "$NAME" <<'PY'
 import json, sys
-ID, ap, d0, d1, tests, cq, ct, buckets = sys.argv[1:9]
+ID, ap, d0, d1, tests, cq, ct, buckets, NAME = sys.argv[1:10]
 prop = [json.loads(l) for l in open('/verif/properties.jsonl') if json.loads(l)['id'] == ID][0]
-notes = open(f'/verif/seeded/{ID}/notes.md').read() if __import__('os').path.exists(f'/verif/seeded/{ID}/notes.md') else ''
+notes = open(f'/verif/seeded/{NAME}/notes.md').read() if __import__('os').path.exists(f'/verif/seeded/{NAME}/notes.md') else ''
 meta = {
   "property": ID, "title": prop["title"],
   "origin": "independent sub-agent given only the property text and a scratch worktree",
@@ -32,6 +32,6 @@ meta = {
                 "commands": ["git worktree add <scratch> HEAD", "python demo.py (unchanged)", "git apply patch.diff", "python demo.py (changed)", "pytest -q -n 8 --benchmark-disable tests", f"VK_REPO=<scratch> ./check {ID} quick", f"VK_REPO=<scratch> ./check {ID} thorough (only if quick missed)"]},
   "our_check": {"quick_exit": int(cq), "thorough_exit": ct, "caught": cq == "1" or ct == "1", "buckets": buckets},
 }
-json.dump(meta, open(f'/verif/seeded/{ID}/meta.json', 'w'), indent=1)
-print(ID, "apply", ap, "demo clean/seeded", d0, d1, "| tests:", tests, "| check quick", cq, "thorough", ct, "|", buckets[:300])
+json.dump(meta, open(f'/verif/seeded/{NAME}/meta.json', 'w'), indent=1)
+print(NAME, "apply", ap, "demo clean/seeded", d0, d1, "| tests:", tests, "| check quick", cq, "thorough", ct, "|", buckets[:300])
 PY
